@@ -1349,6 +1349,8 @@ impl Property for C11 {
         v.push(Shape { seed: 2, nc: 256, nw: 3, chains: 256, len: 2, labels: 1, pad: 300, bc: 1, lb: 1, ..Shape::parse("") }.show("gen"));
         v.push(Shape { seed: 3, nc: 3, nw: 2, chains: 2, len: 2, labels: 2, pad: 255, bc: 2, lb: 1, ..Shape::parse("") }.show("gen"));
         v.push(Shape { seed: 4, nc: 3, nw: 2, chains: 2, len: 2, labels: 2, pad: 254, bc: 1, lb: 0, ..Shape::parse("") }.show("gen"));
+        // C11-b: a trailing LABEL without a step, behind more than 255 steps, in a font with LABEL BOUNDARYCHAR
+        v.push(Shape { seed: 5, nc: 3, nw: 2, chains: 1, len: 1, labels: 1, pad: 255, lb: 1, odd: 1, ..Shape::parse("") }.show("gen"));
         for n in [0, 1, 2, 200, 254, 255, 256] {
             v.push(format!("redir {n} -1"));
             v.push(format!("redir {n} 65"));
